@@ -9,47 +9,52 @@ ID = 'C17'
 MANIFEST = {
     'text': ('Coq: S = eager association list + abstract LRU cache (SF/BusSpec.v); M = Bus.__init__/_store_reader/_update_series_cache_iloc/'
              '_extract_*/items/values/get/iter_element/drop/reindex/sort_* of bus.py modelled statement by statement (SF/Bus.v); the store '
-             'coherence decision Store._mtime_coherent/_mtime_update and the presence of the coherence decorators are REGENERATED from '
-             'store.py/store_zip.py/store_sqlite.py on every run (Gen/Gen_c17.v). Theorems (all unbounded): C17_bus_refines_spec -- for every '
-             'store, every max_persist in {None, >=1} and EVERY history of the domain (selections by label/list/slice/Boolean/position, '
-             'items, values, keys, status, drop, reindex, sort_index, derived Bus continued or not, file touched/rewritten/removed at any point) '
-             'M returns exactly the Frames, labels, loaded flags and exceptions of S; C17_spec_bounded -- never more than max_persist loaded, '
-             'all histories; C17_spec_is_lru / C17_spec_no_limit_keeps_all -- the cache holds exactly the min(k, distinct) most recently used '
-             'labels; C17_stale_read_raises -- a stale file makes the next read raise StoreFileMutation, no data, nothing loaded; '
+             'coherence decision Store._mtime_coherent/_mtime_update, the presence of the coherence decorators and the shape of the six '
+             'history-sensitive statements of bus.py are REGENERATED from the source on every run (Gen/Gen_c17.v), M branches on them. '
+             'Theorems (all unbounded): C17_bus_refines_spec -- for every store, every max_persist in {None, >=1} and EVERY history '
+             '(selections by label/list/slice/Boolean/position, items, values, keys, status, get, iter_element(_items), drop, reindex, '
+             'sort_index, sort_values, derived Bus continued or not, file touched/rewritten/removed/put back at any point) M returns exactly '
+             'the Frames, labels, loaded flags and exceptions of S -- no domain restriction; C17_repairs_in_place -- the regenerated '
+             'constants say bus.py has the repaired statements (commits 71280f9 dee625c 949c364 5b16856 615b06f); the refinement proof '
+             'rests on it, so reverting a repair breaks both; C17_spec_bounded -- never more than max_persist loaded, all histories; '
+             'C17_spec_is_lru / C17_spec_no_limit_keeps_all -- the cache holds exactly the min(k, distinct) most recently used labels; '
+             'C17_stale_read_raises -- a stale file makes the next read raise StoreFileMutation, no data, nothing loaded; '
              'C17_mtime_decision -- the regenerated decision passes iff the file exists with the recorded mtime and every read entry point is '
              'decorated; C17_reader_batches / C17_reads_are_lazy -- reads are the deferred labels of the key, once, in order, in batches <= '
              'max_persist. Correspondence: API-level histories on real store files (zip pickle/csv/tsv, sqlite) in a per-run temp dir, '
              'exhaustive over a 10-operation alphabet, random long histories with derived Buses, file mutation at every point, malformed keys, '
-             'write/reopen round trips; kernel level: _loaded/_last_accessed/store read calls after every step, Bus._store_reader with a stub.'),
-    'note': ('partial. Outside the theorem domain (and refuted by witness in Refuted/C17.v, listed as known findings): Bus.get / iter_element '
-             'placeholders, sort_values with max_persist < len, config[labels] on the max_persist==1 bulk path, LRU key left behind by a failed '
-             'read once the file is restored. sort_values is in the domain only when max_persist is None or >= len(bus). Observed, not proved: the byte codecs '
-             '(csv/tsv/pickle/sqlite are oracles; their fidelity is sampled by the round-trip stratum), Series/Index key resolution (modelled in '
-             'resolve, tied by the correspondence), mtime granularity (the harness forces distinct integral mtimes with os.utime), the window '
-             'between the coherence check and the lazy read. Optional formats (xlsx, hdf5, parquet) are absent here and not exercised.'),
+             'write/reopen round trips, the inputs of the five repaired defects as regression strata; kernel level: _loaded/_last_accessed/'
+             'store read calls after every step, Bus._store_reader with a stub.'),
+    'note': ('partial. One known finding remains: integer column labels come back as strings from an SQLite store (format limitation). '
+             'Observed, not proved: the byte codecs (csv/tsv/pickle/sqlite are oracles; their fidelity is sampled by the round-trip stratum), '
+             'Series/Index key resolution (modelled in resolve, tied by the correspondence), mtime granularity (the harness forces distinct '
+             'integral mtimes with os.utime), the window between the coherence check and the lazy read. Optional formats (xlsx, hdf5, '
+             'parquet) are absent here and not exercised. roll/shift/relabel/equals and hierarchical Bus labels are not modelled.'),
     'technique': 'forward simulation M ~ S over operation histories (Coq), differential histories on real store files',
 }
 PROPERTY_FILES = ['Properties/C17.v']
-REFUTED_FILES = ['Refuted/C17.v']
+REFUTED_FILES = []
+GENERATED_FILES = ['Gen/Gen_c17.v']
 MODEL_FILES = ['SF/BusSpecInst.v', 'SF/BusInst.v']
 IMPORTS = 'Require Import SF.Prelude SF.PySlice SF.Value SF.Dtype SF.BusSpec SF.Bus SF.BusInst.'
 IMPORTS_SPEC_ONLY = 'Require Import SF.Prelude SF.PySlice SF.Value SF.Dtype SF.BusSpec SF.BusSpecInst.'
-RULE = ('a case is one HISTORY: a store of 2..6 small Frames (8 kinds: string/int/auto/hierarchical index, hierarchical columns, mixed dtypes, '
-        'chosen block layout) written with Bus.to_<format>, opened with Bus.from_<format>(max_persist), then a list of public operations; '
-        'after every operation the result (Frames identified by the canonical literal of what was written, labels, exception class) and '
-        'bus.status["loaded"] are compared with M and with S evaluated in Coq on the same history. Strata: exhaustive (all histories of '
-        'length 3 x max_persist None,1,2 quick / length 4 x None,1,2,3 thorough, over a fixed 10-operation alphabet on 3 labels), random (online generation from the '
-        'current labels incl. derived Buses), stale (file touched/rewritten/deleted at every point), malformed keys, kernel (private '
-        '_loaded/_last_accessed and the read calls reaching the store), Bus._store_reader against a stub, write/reopen round trip with full '
-        'Frame literals, one narrow stratum per known finding. Non-trivial: max_persist active or the stale file actually refused a read; '
-        'distinct = distinct (store, max_persist, history).')
+RULE = ('a case is one HISTORY: a store of 2..6 small Frames (9 kinds: string/int/auto/hierarchical index, int or hierarchical columns, mixed '
+        'dtypes, chosen block layout) written with Bus.to_<format>, opened with Bus.from_<format>(max_persist), then a list of public '
+        'operations; after every operation the result (Frames identified by the canonical literal of what was written, labels, exception '
+        'class) and bus.status["loaded"] are compared with M and with S evaluated in Coq on the same history. Strata: exhaustive (all '
+        'histories of length 3 x max_persist None,1,2 quick / length 4 x None,1,2,3 thorough, over a fixed 10-operation alphabet on 3 labels), '
+        'random (online generation from the current labels incl. derived Buses, get/iter_element/sort_values and per-label configurations '
+        'with any max_persist), stale (file touched/rewritten/deleted at every point), malformed keys, kernel (private _loaded/_last_accessed '
+        'and the read calls reaching the store), Bus._store_reader against a stub, write/reopen round trip with full Frame literals, one '
+        'regression stratum per repaired defect (the former witness inputs, specification = the correct behaviour). Non-trivial: max_persist '
+        'active or the stale file actually refused a read; distinct = distinct (store, max_persist, history).')
 ASSUMPTIONS = [
     'a store file is (label -> Frame decoded with its own StoreConfig, Frame decoded with the default StoreConfig); csv/tsv/pickle/sqlite codecs are oracles',
-    'file mtimes are integral and the harness never restores the recorded mtime together with other bytes (os.utime forces distinct mtimes)',
+    'file mtimes are integral; the harness puts the recorded mtime back only together with the original bytes (os.utime forces distinct mtimes otherwise)',
     'labels f0..f9 <-> integers by rank (string order = integer order); Frames <-> rank of their canonical literal',
     'Index._loc_to_iloc / NumPy indexing of a 1-D index = BusSpec.resolve (tied by the malformed and random strata)',
 ]
-TRUSTED = ['tools/sfv/props/c17.py:generate -- fail-closed mini translator of Store._mtime_coherent/_mtime_update and decorator presence (Gen/Gen_c17.v)']
+TRUSTED = ['tools/sfv/props/c17.py:generate -- fail-closed mini translator of Store._mtime_coherent/_mtime_update, decorator presence and the shape of six bus.py statements (Gen/Gen_c17.v)']
 EXHAUSTIVE = {'quick': True, 'thorough': True}
 TRANSLATED = []
 
@@ -891,7 +896,7 @@ def mp_coq(mp):
     return 'None' if mp is None else f'(Some {lit.z(mp)})'
 
 
-def history_case(kind, env, mp, ops, trace, kernel=False, tags=None, nontrivial=True, extra=None, default_differs=None, in_domain=None):
+def history_case(kind, env, mp, ops, trace, kernel=False, tags=None, nontrivial=True, extra=None, default_differs=None):
     ops_lit = lit.lst([op_coq(o) for o in ops])
     args = f'{env.content_lit(default_differs)} {T0} {mp_coq(mp)} {env.keytbl_lit()} {ops_lit}'
     if kernel:
@@ -901,9 +906,6 @@ def history_case(kind, env, mp, ops, trace, kernel=False, tags=None, nontrivial=
         m = f'z_trace_eqb (z_m_run {args}) {trace_coq(trace)}'
         pub = trace
     s = f'z_trace_eqb (z_s_run {args}) {trace_coq(pub)}'
-    if in_domain is not None:
-        # is this history where the refinement theorem C17_bus_refines_spec says it is?
-        m = f'({m}) && Bool.eqb (z_in_domain {args}) {lit.b(in_domain)}'
     desc = {'store': env.describe(), 'open': f'sf.Bus.from_{env.fmt}(fp, config=..., max_persist={mp})',
             'history': [op_desc(o) for o in ops],
             'observed': [obs_coq(t[0]) + ' loaded=' + ''.join('1' if x else '0' for x in t[1]) for t in trace]}
@@ -1004,20 +1006,8 @@ def exhaustive_cases(ctx, work):
             ops, trace = run_history(env, mp, list(hist))
             ctx.count(f'exhaustive:mp={mp}')
             yield history_case('api:history-exhaustive', env, mp, ops, trace, tags={'stratum': 'exhaustive', 'mp': mp},
-                               nontrivial=mp is not None, in_domain=True)
+                               nontrivial=mp is not None)
 
-
-
-_FLAGS = None
-
-
-def source_flags():
-    """bus_flags of the tree under test (the same facts Gen/Gen_c17.v carries)."""
-    global _FLAGS
-    if _FLAGS is None:
-        from ..core import REPO
-        _FLAGS = bus_flags(REPO)
-    return _FLAGS
 
 
 # ---------------------------------------------------------------------------------- random histories
@@ -1049,35 +1039,27 @@ def rand_key(rng, cur, bulk_ok=True):
 
 
 class RandomHistory:
-    """Online generator of well-formed operations that stay clear of the known findings BY CONSTRUCTION:
-    no get/iter_element unless everything was loaded by a previous values/items with max_persist=None,
-    no sort_values with max_persist < len(bus), no bulk selection with max_persist == 1 under a per-label
-    configuration map, no file events."""
+    """Online generator of well-formed operations over the current labels.  Since the five C17 repairs every public
+    operation is inside the theorem: get / iter_element on partly loaded Buses, sort_values with any max_persist, bulk
+    selections with max_persist == 1 under a per-label configuration map."""
 
     def __init__(self, rng, env, mp, length, count=None):
         self.rng, self.env, self.mp, self.length, self.count = rng, env, mp, length, count
-        self.all_loaded = False
 
     def __call__(self, step, cur):
         if step >= self.length:
             return None
-        rng, mp, n = self.rng, self.mp, len(cur)
-        bulk_ok = not (self.env.mapped and mp == 1)
-        menu = ['sel'] * 10 + ['values', 'items', 'values', 'items', 'keys', 'iter', 'status', 'sort_index', 'sort_index']
-        if bulk_ok:
-            menu += ['head', 'tail']
+        rng, n = self.rng, len(cur)
+        menu = ['sel'] * 10 + ['values', 'items', 'values', 'items', 'keys', 'iter', 'status', 'sort_index', 'sort_index',
+                               'head', 'tail', 'iter_element', 'iter_element_items']
         if n:
-            menu += ['drop', 'drop', 'reindex', 'reindex']
-            if mp is None or mp >= n:
-                menu += ['sort_values', 'sort_values']
-            if self.all_loaded:
-                menu += ['get', 'iter_element', 'iter_element_items']
+            menu += ['drop', 'drop', 'reindex', 'reindex', 'sort_values', 'sort_values', 'get', 'get']
         k = rng.choice(menu)
         into = rng.random() < .3
         if self.count:
             self.count(f'op:{k}')
         if k == 'sel':
-            via, key = rand_key(rng, cur, bulk_ok)
+            via, key = rand_key(rng, cur, True)
             size = key_size(key, n, cur)
             if self.count:
                 self.count(f'key:{key[0]}')
@@ -1097,10 +1079,6 @@ class RandomHistory:
             return ('sort_values', rng.random() < .5, into)
         if k == 'get':
             return ('get', rng.choice(cur + [UNKNOWN_LABEL]))
-        if k in ('values', 'items'):
-            if mp is None:
-                self.all_loaded = True
-            return (k,)
         return (k,)
 
 
@@ -1125,11 +1103,7 @@ def random_cases(ctx, work, kernel):
             ops, trace = run_history(env, mp, None, kernel=kernel, online=RandomHistory(rng, env, mp, length, ctx.count))
             ctx.count(f'{kind}:{fmt}', f'{kind}:mp={"None" if mp is None else ("n+" if mp >= n else mp)}',
                       f'{kind}:config={"map" if env.mapped else "one"}')
-            # the theorem's domain: one StoreConfig for all labels or max_persist != 1 (sort_values is only generated when
-            # max_persist is None or >= len(bus), get/iter_element only when everything is loaded: all inside s_dom)
-            in_dom = not (env.mapped and mp == 1 and not source_flags()['reader_cfg_by_label'])
-            ctx.count(f'{kind}:in-theorem-domain={in_dom}')
-            yield history_case(kind, env, mp, ops, trace, kernel=kernel, in_domain=in_dom,
+            yield history_case(kind, env, mp, ops, trace, kernel=kernel,
                                tags={'stratum': 'kernel' if kernel else 'random', 'format': fmt, 'mp': mp})
 
 
@@ -1166,7 +1140,7 @@ def stale_cases(ctx, work):
         os.path.exists(env.fp) and os.remove(env.fp)
         ctx.count(f'stale:{ev[1]}', f'stale:point={i}', f'stale:{fmt}')
         raised = any(t[0] == ('err', 'StoreFileMutation') for t in trace)
-        yield history_case('api:stale', env, mp, ops, trace, in_domain=True,
+        yield history_case('api:stale', env, mp, ops, trace,
                            tags={'stratum': 'stale', 'event': ev[1], 'format': fmt, 'mp': mp}, nontrivial=raised)
 
 
@@ -1257,8 +1231,6 @@ def store_reader_cases(ctx):
             ctx.count('store_reader')
             py_fail = None
             tags = {'kernel': 'store_reader', 'mp': mp}
-            if mp == 1 and n >= 1:
-                tags['finding'] = 'C17-config-max-persist-1'      # by construction: the max_persist == 1 branch with labels to read
             if out != [('F', l) for l in labels]:
                 py_fail = f'_store_reader yields {out!r} for labels {labels}'
             elif mp is not None and any(len(c) > max(mp, 1) for c in st.calls):
@@ -1276,14 +1248,15 @@ def store_reader_cases(ctx):
                        py_fail=py_fail, tags=tags, nontrivial=n > 1)
 
 
-# ---------------------------------------------------------------------------------- known findings: one narrow stratum each
-def finding_cases(ctx, work):
+# ---------------------------------------------------------------------------------- repaired defects: the former witness inputs as regression cases
+# (specification = the correct behaviour; no known-finding tag any more)
+def regression_cases(ctx, work):
     rng = ctx.rng
     acc = lambda l: ('sel', 'getitem', ('label', l), False)
     four = ['f0', 'f1', 'f2', 'f3']
 
-    # (1) a failed read leaves the label in _last_accessed; once the file is back, max_persist can be exceeded
-    tag = {'finding': 'C17-failed-read-lru'}
+    # (1) fixed dee625c: a failed read left the label in _last_accessed; once the file was back, max_persist could be exceeded
+    tag = {'regression': 'failed-read-lru'}
     env0 = Env(work.tmp, work.name('fr'), 'zip_pickle', four, ['str_idx', 'one', 'mixed', 'wide'], False, rng)
     witness = [acc('f0'), acc('f2'), ('file', 'touch', T0 + 5), acc('f1'), ('file', 'restore'), acc('f0'), acc('f2'), acc('f3'), ('status',)]
     hists = [(env0, 2, witness)]
@@ -1302,35 +1275,35 @@ def finding_cases(ctx, work):
         env = env.clone(work.tmp, work.name('frc'))
         ops, trace = run_history(env, mp, ops, kernel=True)
         os.path.exists(env.fp) and os.remove(env.fp)
-        ctx.count('finding:failed-read-then-restore')
-        yield history_case('finding:restore-after-failed-read', env, mp, ops, trace, kernel=True,
+        ctx.count('regression:failed-read-then-restore')
+        yield history_case('regression:restore-after-failed-read', env, mp, ops, trace, kernel=True,
                            tags=dict(tag, format=env.fmt, mp=mp, witness=(j == 0)))
 
-    # (2) Bus.get / iter_element / iter_element_items hand out the FrameDeferred placeholder
+    # (2) fixed 5b16856 949c364: Bus.get / iter_element / iter_element_items handed out the FrameDeferred placeholder
     env = Env(work.tmp, work.name('ph'), 'zip_pickle', four, ['str_idx', 'one', 'mixed', 'auto'], False, rng)
     for mp in (None, 1, 2):
         for pre_n in range(0, ctx.n(3, 6)):
             labels = list(four)
             fresh = labels.pop(rng.randrange(4))                  # never accessed: still deferred by construction
             pre = [acc(rng.choice(labels)) for _ in range(pre_n)]
-            for last, fid in ((('get', fresh), 'C17-get-placeholder'), (('iter_element',), 'C17-iter-element-placeholder'),
-                              (('iter_element_items',), 'C17-iter-element-placeholder')):
+            for last, fid in ((('get', fresh), 'get-placeholder'), (('iter_element',), 'iter-element-placeholder'),
+                              (('iter_element_items',), 'iter-element-placeholder')):
                 ops, trace = run_history(env, mp, pre + [last])
-                ctx.count(f'finding:{last[0]}-placeholder')
-                yield history_case('finding:placeholder', env, mp, ops, trace, tags={'finding': fid, 'op': last[0], 'mp': mp})
+                ctx.count(f'regression:{last[0]}-placeholder')
+                yield history_case('regression:placeholder', env, mp, ops, trace, tags={'regression': fid, 'op': last[0], 'mp': mp})
 
-    # (3) sort_values on a Bus whose max_persist is smaller than its length
+    # (3) fixed 615b06f: sort_values on a Bus whose max_persist is smaller than its length raised ErrorInitBus
     for i in range(ctx.n(4, 40)):
         fmt = FORMATS[i % len(FORMATS)]
         env = random_env(rng, work, fmt, n=rng.randrange(2, 6), mapped=False, stem='sv')
         mp = rng.randrange(1, len(env.order))
         pre = [acc(rng.choice(env.order)) for _ in range(rng.randrange(0, 3))]
         ops, trace = run_history(env, mp, pre + [('sort_values', rng.random() < .5, True), ('values',)])
-        ctx.count('finding:sort_values-max_persist')
-        yield history_case('finding:sort-values', env, mp, ops, trace,
-                           tags={'finding': 'C17-sort-values-max-persist', 'format': fmt, 'mp': mp})
+        ctx.count('regression:sort_values-max_persist')
+        yield history_case('regression:sort-values', env, mp, ops, trace,
+                           tags={'regression': 'sort-values-max-persist', 'format': fmt, 'mp': mp})
 
-    # (4) max_persist == 1, a per-label configuration map, a selection of several labels: read with the DEFAULT configuration
+    # (4) fixed 71280f9: max_persist == 1, a per-label configuration map, a selection of several labels was read with the DEFAULT configuration
     import static_frame as sf
     for i in range(ctx.n(4, 40)):
         fmt = ('zip_csv', 'zip_tsv')[i % 2]
@@ -1346,15 +1319,15 @@ def finding_cases(ctx, work):
         if i % 3 == 0:
             ops = [('sel', 'iloc', ('slice', (None, None, None)), True), ('iter_element',), ('values',)]
         ops, trace = run_history(env, 1, ops)
-        ctx.count('finding:config-max_persist-1')
-        yield history_case('finding:config-map-max-persist-1', env, 1, ops, trace, default_differs=True,
-                           tags={'finding': 'C17-config-max-persist-1', 'format': fmt, 'mp': 1})
+        ctx.count('regression:config-max_persist-1')
+        yield history_case('regression:config-map-max-persist-1', env, 1, ops, trace, default_differs=True,
+                           tags={'regression': 'config-max-persist-1', 'format': fmt, 'mp': 1})
 
 
 def cases(ctx):
     work = Work()
     try:
-        yield from finding_cases(ctx, work)
+        yield from regression_cases(ctx, work)
         yield from store_reader_cases(ctx)
         yield from roundtrip_cases(ctx, work)
         yield from malformed_cases(ctx, work)
